@@ -192,7 +192,11 @@ func (n *nodeContext) disjunctError() errors.Error {
 	k := len(errors.Errors(disjuncts))
 	if k == 1 {
 		if pos != nil {
-			addDisjunctPositions(disjuncts.(*ValueError), pos)
+			// The single remaining error need not be a *ValueError: a user
+			// error raised inside a builtin call arrives wrapped.
+			if ve, ok := disjuncts.(*ValueError); ok {
+				addDisjunctPositions(ve, pos)
+			}
 		}
 		return disjuncts
 	}
